@@ -87,11 +87,11 @@ fn one(i: usize, lens: &[usize], seed: u64) -> Out {
 }
 
 pub fn lengths(thorough: bool) -> Vec<usize> {
-    let mut v: Vec<usize> = if thorough { (1..=4096).collect() } else { (1..=300).collect() };
+    let mut v: Vec<usize> = if thorough { (1..=4096).collect() } else { (1..=640).collect() };
     if !thorough {
-        for k in 38..=512 {
+        for k in 80..=512 {
             for d in [8 * k - 1, 8 * k, 8 * k + 1] {
-                if k % 16 == 0 || k % 16 == 5 {
+                if k % 4 == 3 || k % 16 == 0 {
                     v.push(d);
                 }
             }
